@@ -116,6 +116,9 @@ def run(tier):
     out = tlc_out(ck, wd, "IFT1MC", "IFT1MC.cfg", "ift1", xmx="8g")
     strict(ck, "ift-format1", "fv-ift", ["c19", "f1", "--cases", out, "--every", 3 if q else 1, "--out", os.path.join(wd, "n.ndjson")])
     os.remove(out)
+    out = tlc_out(ck, wd, "UriTemplateMC", "UriTemplateMC_quick.cfg", "uritemplate", workers=4)
+    strict(ck, "ift-uri-templates", "fv-ift", ["c19", "templates", "--cases", out, "--out", os.path.join(wd, "u.ndjson")])
+    os.remove(out)
     strict(ck, "ift-hostile-maps", "fv-ift", ["c19", "hostilemaps", "--seed", s0, "--n", 12 if q else 80, "--out", os.path.join(wd, "t.ndjson")])
     strict(ck, "ift-select-random", "fv-ift", ["c19", "random", "--seed", s0, "--n", 300 if q else 1500, "--out", os.path.join(wd, "o.ndjson")])
     strict(ck, "subset-corpus", "fv-subset", ["c17", "corpus", "--seed", s0, "--n", 12 if q else 80, "--out", os.path.join(wd, "m.ndjson")])
